@@ -46,7 +46,7 @@ ASSUMPTIONS = [
     "the limit rule: a connected point that already has k children is no longer a candidate parent "
     "(the root is exempt when exclude_soma is set)",
 ]
-REQUIRED = ["constructions_under_custom_column_names", "constructions", "points_multiset_checked", "mst_length_checked", "limit_checked",
+REQUIRED = ["constructions_under_custom_column_names", "point_buffers_refilled_in_place", "constructions", "points_multiset_checked", "mst_length_checked", "limit_checked",
             "limit_root_not_exempt", "root_wants_more_than_k", "parents_replayed", "balanced_replayed",
             "float32_clouds", "integer_clouds", "clouds_with_coincident_points", "far_clouds", "soma_given", "soma_first_point", "class_PointsToMST",
             "class_PointsToCuntzMST", "tap_call", "transform_instances_reused",
@@ -227,6 +227,38 @@ def execute(ctx, case):
     ctx.count("constructions")
     if not np.array_equal(pts, pts_before):
         return ctx.violation("input-mutated", "the point array was modified", case)
+    if case["seed"] % 3 == 1 and 3 <= len(pts) <= 150:
+        # the caller's point array is a working buffer: after one construction it is refilled in
+        # place (the next sample) and handed to the same transform object again -- the second tree
+        # is the tree of the points the buffer holds then
+        from rv.gen import trees as G_
+
+        mk2 = (lambda: PointsToMST(furcations=k, exclude_soma=ex, sort=srt)) if cls == "PointsToMST" \
+            else (lambda: PointsToCuntzMST(bf=bf, furcations=k, exclude_soma=ex, sort=srt))
+        try:
+            with warnings.catch_warnings():
+                warnings.simplefilter("ignore")
+                buf = np.array(pts, copy=True)
+                tfb = mk2()
+                tfb(buf, soma) if soma is not None else tfb(buf)
+                if buf.dtype.kind == "f":
+                    buf[:, 2] *= 8
+                    buf[:, 0] += 3
+                else:
+                    buf[:, 2] *= 2
+                    buf[:, 0] += 3
+                buf[:] = buf[::-1].copy()
+                second = tfb(buf, soma) if soma is not None else tfb(buf)
+                fresh = mk2()(buf.copy(), soma) if soma is not None else mk2()(buf.copy())
+            ctx.count("point_buffers_refilled_in_place")
+            r = G_._same(fresh, second)
+        except Exception as e:
+            r = f"raised {type(e).__name__}: {str(e)[:120]}"
+        if r:
+            return ctx.violation("stale-after-buffer-refill",
+                                 f"{cls}: the same transform object called again after the caller "
+                                 f"refilled its point array in place does not build the tree of the "
+                                 f"new points: {r}", case)
     if case["seed"] % 4 == 3 and len(pts) <= 120:
         # the same construction asked to name its columns differently (`names=`): the same tree
         # under those names
